@@ -85,7 +85,7 @@ RecsAB == [n \in {"A", "B"} |-> IF n = "A" THEN EdgeRecs(A) ELSE EdgeRecs(B)]
 TookShortcut == Len(labs) > 0 /\ labs[Len(labs)] = <<"trivial">>
 
 \* C01 / C09: the region is right, whichever shortcuts are enabled
-M_ResultRegion == Done => RegionMatches(out, ExprAB, RecsAB)
+M_ResultRegion == Done => RegionMatches(out, ExprAB, RecsAB, {})
 \* C02
 M_Nesting == (Done /\ ~TookShortcut) => PolygonSetValid(out, Ein)
 \* C04: closed CCW rings with >= 3 vertices, edges on input edges, vertices arrangement vertices
